@@ -42,8 +42,11 @@ PROBES = ["time_zero_requested", "off_grid_time", "near_grid_time", "duration_no
 ASSUMPTIONS = [
     "requested times closer than 1e-9 (relative) to each other count as one due time",
     "emu-sv has no autosave and no jump search: for it the check is the history oracle over seeded configurations, no fault is injected",
-    "clock-revealing oracle: the sampled Hamiltonian is constant, so the value is exact for any step grid (tolerance 1e-7)",
+    "clock-revealing oracle: the sampled Hamiltonian is constant, so the value is exact for any step grid (tolerance 1e-7); sampled bit strings of those runs are tested against sin^2(Omega t/2) with an exact binomial test (family-wise 1e-9 per invocation)",
 ]
+
+
+CLOCK_BITS_LOG_ALPHA = math.log(1e-9 / 1e6)  # per comparison; far fewer than 1e6 (tag, time, run) comparisons per invocation
 
 
 def plan(tier: str) -> dict:
@@ -169,4 +172,24 @@ def _judge(case: dict, canon: dict, clock: bool, desc: dict, prefix: str) -> lis
                 t_est = 2.0 * math.asin(math.sqrt(min(max(g, 0.0), 1.0))) / (om * 1e-3) if om else float("nan")
                 V.append({"clause": f"{prefix}.value-not-at-requested-time", "site": case["backend"], "msg": f"occupation recorded for t={t!r} (= {t * T!r} ns) is {got.tolist()}, expected sin^2(Omega t/2) = {exp!r}; the recorded value corresponds to t = {t_est!r} ns :: {desc}"})
                 break
+    if clock:
+        # sampled bit strings reveal the time too: every atom is excited with probability sin^2(Omega t/2), independently
+        from .c15 import log_two_sided
+
+        om, T = case["omega"], case["T"]
+        n = len(case["scn"]["atoms"])
+        for tag, recs in canon["tags"].items():
+            if not tag.startswith("bitstrings"):
+                continue
+            for t, val in recs:
+                cnt = val.get("__counter__") if isinstance(val, dict) else None
+                if not cnt:
+                    continue
+                shots = sum(cnt.values())
+                ones = sum(c * s_.count("1") for s_, c in cnt.items())
+                p = math.sin(om * (t * T) * 1e-3 / 2.0) ** 2
+                lp = log_two_sided(ones, shots * n, min(1.0, max(0.0, p)))
+                if lp < CLOCK_BITS_LOG_ALPHA:
+                    V.append({"clause": f"{prefix}.value-not-at-requested-time", "site": f"{case['backend']}|{tag}", "msg": f"{tag} recorded for t={t!r} (= {t * T!r} ns): {ones} of {shots} x {n} sampled bits are 1, but every atom is excited with probability sin^2(Omega t/2) = {p:.6f} at that time (exact binomial log p = {lp:.1f}); counts {dict(list(cnt.items())[:6])} :: {desc}"})
+                    return V
     return V
